@@ -20,6 +20,7 @@ import (
 	"github.com/lightninglabs/pool/auctioneerrpc"
 	"github.com/lightninglabs/pool/internal/test"
 	"github.com/lightninglabs/pool/order"
+	"github.com/lightninglabs/pool/poolrpc"
 	"github.com/lightninglabs/pool/poolscript"
 	"github.com/lightninglabs/pool/terms"
 	"github.com/lightningnetwork/lnd/input"
@@ -177,6 +178,30 @@ func c11Debit(o c11Order, ours order.Order, fs terms.FeeSchedule, ver uint8, fil
 	return -int64(tally.EndingBalance), nil
 }
 
+// c11Safe runs a call into the real code and turns a panic into an outcome.
+func c11Safe(f func()) (panicMsg string) {
+	defer func() {
+		if p := recover(); p != nil {
+			panicMsg = fmt.Sprint(p)
+			if panicMsg == "" {
+				panicMsg = "panic"
+			}
+		}
+	}()
+	f()
+	return ""
+}
+
+// c11TraderFee calls the real EstimateTraderFee; a panic is reported as -1.
+func c11TraderFee(k uint32, fee int64, ver uint8) (v int64) {
+	if c11Safe(func() {
+		v = int64(order.EstimateTraderFee(k, chainfee.SatPerKWeight(fee), account.Version(ver)))
+	}) != "" {
+		return -1
+	}
+	return v
+}
+
 // c11Reserved calls the real ReservedValue.
 func c11Reserved(ours order.Order, fs terms.FeeSchedule, ver uint8) (v int64, panicked bool) {
 	defer func() {
@@ -272,7 +297,10 @@ func runC11(r *Run) {
 
 	// ---- State.Archived over the whole uint8 range ----
 	for s := 0; s < 256; s++ {
-		got := order.State(s).Archived()
+		var got bool
+		if pm := c11Safe(func() { got = order.State(s).Archived() }); pm != "" {
+			r.Violate(fmt.Sprintf("State(%d).Archived() panicked: %s", s, pm), "C11/archived", s)
+		}
 		r.Emit(fmt.Sprintf("C11 arch %d", s), fmt.Sprint(got))
 		if got != c11Archived(uint8(s)) {
 			r.Violate(fmt.Sprintf("State(%d).Archived() = %v", s, got), "C11/archived", s)
@@ -297,7 +325,7 @@ func runC11(r *Run) {
 			v = uint8(r.Rng.Intn(256))
 		}
 		r.Emit(fmt.Sprintf("C11 tf %d %d %d", k, fr, v),
-			fmt.Sprint(int64(order.EstimateTraderFee(k, chainfee.SatPerKWeight(fr), account.Version(v)))))
+			fmt.Sprint(c11TraderFee(k, fr, v)))
 		r.Count("tf")
 	}
 
@@ -327,10 +355,18 @@ func runC11(r *Run) {
 // boundary-directed triples.
 func c11PremiumStream(r *Run, n int) {
 	emit := func(amt int64, rate, dur uint32) {
-		f := order.PerBlockPremium(btcutil.Amount(amt), rate) * float64(dur)
+		var f float64
+		var lump int64
+		if pm := c11Safe(func() {
+			f = order.PerBlockPremium(btcutil.Amount(amt), rate) * float64(dur)
+			lump = int64(order.FixedRatePremium(rate).LumpSumPremium(btcutil.Amount(amt), dur))
+		}); pm != "" {
+			r.Violate("LumpSumPremium panicked: "+pm, "C11/premium-panic", []int64{amt, int64(rate), int64(dur)})
+			f = math.Inf(1)
+		}
 		exp := "ood"
 		if amt >= 0 && f < 9223372036854775808.0 {
-			exp = fmt.Sprint(int64(order.FixedRatePremium(rate).LumpSumPremium(btcutil.Amount(amt), dur)))
+			exp = fmt.Sprint(lump)
 			r.Count("prem/in-range")
 			if f >= 1<<53 {
 				r.Count("prem/above-2^53")
@@ -340,6 +376,22 @@ func c11PremiumStream(r *Run, n int) {
 		}
 		r.Emit(fmt.Sprintf("C11 prem %d %d %d", amt, rate, dur), exp)
 		r.Evaluations++
+		// the total Int-valued variant used by other models: any int64 amount; outside the int64 range of the
+		// result the model follows the amd64 back end (compared, not claimed)
+		if r.Rng.Intn(4) == 0 || exp == "ood" {
+			a2 := amt
+			if r.Rng.Intn(2) == 0 {
+				a2 = -amt
+			}
+			var l2 int64
+			if c11Safe(func() { l2 = int64(order.FixedRatePremium(rate).LumpSumPremium(btcutil.Amount(a2), dur)) }) == "" {
+				r.Emit(fmt.Sprintf("C11 premi %d %d %d", a2, rate, dur), fmt.Sprint(l2))
+				r.Count("premi")
+				if a2 < 0 {
+					r.Count("premi/negative")
+				}
+			}
+		}
 	}
 	// boundary triples
 	for _, a := range []int64{0, 1, 2, 99999, 100000, 100001, 1 << 24, 1<<53 - 1, 1 << 53, 1<<53 + 1, 1<<62 + 12345, math.MaxInt64, 2_100_000_000_000_000} {
@@ -440,6 +492,21 @@ func c11GenOrder(r *Run) (c11Order, int64, int64, uint8) {
 		o.MinUnits = o.Unfilled + 1 + uint64(r.Rng.Intn(5))
 	default:
 		o.MinUnits = 0
+	}
+	// what batchStorer leaves behind after a partial fill: the remainder is below the minimum match, the order
+	// is archived as executed but keeps its unfilled units; or fully filled with nothing left
+	if x := r.Rng.Intn(100); x < 4 {
+		o.State = uint8(order.StateExecuted)
+		o.MinUnits = 2 + uint64(r.Rng.Intn(50))
+		o.Unfilled = 1 + uint64(r.Rng.Int63n(int64(o.MinUnits)-1))
+		if r.Rng.Intn(4) == 0 {
+			o.MinUnits = 0 // unvalidated terms of an archived order must not matter either
+		}
+		r.Count("gen/executed-with-leftover")
+	} else if x < 6 {
+		o.State = uint8(order.StateExecuted)
+		o.Unfilled = 0
+		r.Count("gen/executed-fully")
 	}
 	o.Units = o.Unfilled + uint64(r.Rng.Intn(3))*uint64(r.Rng.Intn(50))
 	if o.Units > 10_000_000 && o.Unfilled <= 10_000_000 {
@@ -680,7 +747,9 @@ func c11RunFills(r *Run, c c11Case, fromGen bool) {
 		if o.IsBid && o.Auction == 1 {
 			base = int64(f.Units)*100000 + o.Self
 		}
-		if order.PerBlockPremium(btcutil.Amount(base), f.Price)*float64(o.Dur) >= 9223372036854775808.0 {
+		var pf float64
+		if c11Safe(func() { pf = order.PerBlockPremium(btcutil.Amount(base), f.Price) * float64(o.Dur) }) != "" ||
+			pf >= 9223372036854775808.0 {
 			r.Count("fills/premium-out-of-int64")
 			return
 		}
@@ -813,7 +882,7 @@ func c11Partitions(r *Run, umax int) {
 							break
 						}
 						d1[s] = d
-						dm[s] = d - int64(order.EstimateTraderFee(1, chainfee.SatPerKWeight(fee), account.Version(ver)))
+						dm[s] = d - c11TraderFee(1, fee, ver)
 						r.Emit(fmt.Sprintf("C11 bd %s %d %d %d %d %d 0 %d", o.token(), base, ppm, fee, ver, price, s),
 							fmt.Sprint(d))
 					}
@@ -827,7 +896,7 @@ func c11Partitions(r *Run, umax int) {
 							r.Evaluations++
 							r.Count("part/partitions")
 							k := len(parts)
-							oneTx := sumM + int64(order.EstimateTraderFee(uint32(k), chainfee.SatPerKWeight(fee), account.Version(ver)))
+							oneTx := sumM + c11TraderFee(uint32(k), fee, ver)
 							for which, tot := range []int64{sum1, oneTx} {
 								if tot > rv+2*int64(k) {
 									fl := make([]c11Fill, k)
@@ -1002,6 +1071,7 @@ func c11RunValidate(r *Run, ctx context.Context, c c11Case) {
 	ood := false
 	sum := big.NewInt(0)
 	anyPanic := false
+	archBad := false
 	nSame, nOther, nArch := 0, 0, 0
 	for i, s := range append([]c11Order{o}, c.Stored...) {
 		if s.Acct != o.Acct {
@@ -1013,7 +1083,14 @@ func c11RunValidate(r *Run, ctx context.Context, c c11Case) {
 		}
 		if c11Archived(s.State) {
 			nArch++
-			continue // archived orders reserve nothing
+			// archived orders reserve nothing – whatever their other terms are
+			if v, pnk := c11Reserved(s.real(100+i), fs, c.Ver); pnk || v != 0 {
+				r.Count("oracle/violation")
+				r.Violate(fmt.Sprintf("archived order (state %d, %d units left, min match %d) of the account reserves %s "+
+					"instead of nothing", s.State, s.Unfilled, s.MinUnits, c11Out(v, pnk)), "C11/archived-reserve", c)
+				archBad = true
+			}
+			continue
 		}
 		if s.MinUnits == 0 {
 			anyPanic = true
@@ -1067,9 +1144,15 @@ func c11RunValidate(r *Run, ctx context.Context, c c11Case) {
 		r.Count("oracle/violation")
 		r.Violate(fmt.Sprintf("order rejected with ErrInsufficientBalance although account value %d >= reserved %v "+
 			"(orders of other accounts must not count)", c.Value, sum), "C11/rejected-covered", c)
+	case got == "panic":
+		r.Count("oracle/violation")
+		r.Violate("validateOrder panicked although every active order of the account has a non-zero minimum match "+
+			"(archived orders must reserve nothing)", "C11/validate-panic", c)
+		return
 	case got != "ok" && got != "err-insufficient":
 		r.Violate("unexpected validateOrder result "+got, "C11/validate-unexpected", c)
 	}
+	_ = archBad
 	if got == "ok" {
 		r.Count("val/accept")
 	} else {
@@ -1118,7 +1201,14 @@ func c11RunValidate(r *Run, ctx context.Context, c c11Case) {
 			}
 			want[a] = uint64(val) - s
 		}
-		res, err := pool.VerifC11AvailableBalances(st.orders, tm, accts)
+		var res []*poolrpc.Account
+		var err error
+		if pm := c11Safe(func() { res, err = pool.VerifC11AvailableBalances(st.orders, tm, accts) }); pm != "" {
+			r.Count("oracle/violation")
+			r.Violate("MarshallAccountsWithAvailableBalance panicked ("+pm+") although every active stored order has a "+
+				"non-zero minimum match", "C11/available-balance-panic", c)
+			return
+		}
 		if err != nil {
 			r.Violate("MarshallAccountsWithAvailableBalance: "+err.Error(), "C11/avail-error", c)
 			return
